@@ -10,6 +10,7 @@ def explore(run, lean):
     # start paths of charts assembled from template state functions (nesting declared through register_parent, sometimes twice)
     run.factory_key = "C03"
     factory_corr.explore(run, 60 if quick else 1500)
+    hsm_corr.explore_literal_depths(run, "C03")
     run.extra["rule"] = ("corpus witnesses first, then random charts (1-14 states, 40% deep chains, multi-level initial "
                          "transitions, per-state HANDLED/fall-through flags) with scripts of start_at + 1-6 ops on plain / "
                          "instrumented / queued hosts; thorough tier adds all trees with <=5 states x all (cur,S,T) x all single "
